@@ -1,6 +1,342 @@
-//! stub: domain `curve` (filled in by its builder)
-use crate::Ints;
+//! C11 / C12: curves.  Mirror of coq/theories/Run/RunCurve.v (same case encoding, same output).
+//!
+//! case = op ...
+//!   0 lcflag lc n f64bits*n v        index_left on floats  (hook index_left_f64)      -> outcome idx
+//!   1 lcflag lc n k*n v              index_left on i64                               -> outcome idx
+//!   2 n f64bits*n q v*q              many look-ups on one float list                 -> idx* (-2 = abort)
+//!   10 path rule ad idlen id* hasbase base n (key_ns number)*n nact act*
+//!        path 0: CurveDF::try_new on `Nodes` of the kind given by `ad` (every value of that kind)
+//!        path 1: the Python-facing Curve(nodes, interpolator, ad, id, ...) (values of any kind)
+//!      act = 0 x            interpolated_value(x)            -> outcome number
+//!            1 x            node_index(x)                    -> outcome idx        (path 0 only)
+//!            2 o            set_ad_order(o)                  -> outcome (nothing)
+//!            3              ad()                             -> order
+//!            4              nodes                            -> n (key number)*
+//!            5 x            index_value(x)                   -> outcome number
+//!            6 x nn name*   interpolated_value(x), then gradient1(names) (+ gradient2(names))
+//!      x = timestamp in seconds, key_ns = datetime in nanoseconds since the epoch
+//! output floats are written as 2^64 + IEEE bits so that the driver can compare them with a tolerance.
+use crate::cal::Rd;
+use crate::numenc::{read_name, read_names, read_number};
+use crate::{guard, Ints};
+use chrono::{DateTime, NaiveDateTime};
+use indexmap::IndexMap;
+use rateslib::calendars::{Convention, Modifier, NamedCal};
+use rateslib::curves::{
+    CurveDF, FlatBackwardInterpolator, FlatForwardInterpolator, LinearInterpolator,
+    LinearZeroRateInterpolator, LogLinearInterpolator, Nodes, NullInterpolator,
+};
+use rateslib::dual::{ADOrder, Dual, Dual2, Gradient1, Gradient2, Number, Vars};
+use rateslib::verif_hooks as hk;
 
-pub fn run(_op: &str, _a: &Ints) -> Ints {
-    vec![-1]
+const FMARK: i128 = 1i128 << 64;
+
+fn wf(x: f64, out: &mut Ints) {
+    out.push(FMARK + x.to_bits() as i128);
+}
+fn wname(s: &str, out: &mut Ints) {
+    let cps: Vec<i128> = s.chars().map(|c| c as u32 as i128).collect();
+    out.push(cps.len() as i128);
+    out.extend(cps);
+}
+fn wnames<'a, I: Iterator<Item = &'a String>>(it: I, out: &mut Ints) {
+    let v: Vec<&String> = it.collect();
+    out.push(v.len() as i128);
+    for s in v {
+        wname(s, out);
+    }
+}
+fn wdual(d: &Dual, out: &mut Ints) {
+    wnames(d.vars().iter(), out);
+    wf(d.real(), out);
+    out.push(d.dual().len() as i128);
+    for x in d.dual().iter() {
+        wf(*x, out);
+    }
+}
+fn wdual2(d: &Dual2, out: &mut Ints) {
+    wnames(d.vars().iter(), out);
+    wf(d.real(), out);
+    out.push(d.dual().len() as i128);
+    for x in d.dual().iter() {
+        wf(*x, out);
+    }
+    let sh = d.dual2().shape().to_vec();
+    out.push(sh[0] as i128);
+    out.push(sh[1] as i128);
+    for x in d.dual2().iter() {
+        wf(*x, out);
+    }
+}
+fn wnumber(n: &Number, out: &mut Ints) {
+    match n {
+        Number::F64(f) => {
+            out.push(0);
+            wf(*f, out);
+        }
+        Number::Dual(d) => {
+            out.push(1);
+            wdual(d, out);
+        }
+        Number::Dual2(d) => {
+            out.push(2);
+            wdual2(d, out);
+        }
+    }
+}
+
+fn ndt_ns(k: i128) -> NaiveDateTime {
+    let secs = k.div_euclid(1_000_000_000) as i64;
+    let nanos = k.rem_euclid(1_000_000_000) as u32;
+    DateTime::from_timestamp(secs, nanos).expect("datetime range").naive_utc()
+}
+fn ndt_s(x: i128) -> NaiveDateTime {
+    DateTime::from_timestamp(x as i64, 0).expect("datetime range").naive_utc()
+}
+fn ns_of(d: &NaiveDateTime) -> i128 {
+    let u = d.and_utc();
+    u.timestamp() as i128 * 1_000_000_000 + u.timestamp_subsec_nanos() as i128
+}
+fn adorder(o: i128) -> ADOrder {
+    match o {
+        0 => ADOrder::Zero,
+        1 => ADOrder::One,
+        _ => ADOrder::Two,
+    }
+}
+fn ad_int(a: ADOrder) -> i128 {
+    match a {
+        ADOrder::Zero => 0,
+        ADOrder::One => 1,
+        ADOrder::Two => 2,
+    }
+}
+
+enum AnyCurve {
+    LL(CurveDF<LogLinearInterpolator, NamedCal>),
+    L(CurveDF<LinearInterpolator, NamedCal>),
+    LZ(CurveDF<LinearZeroRateInterpolator, NamedCal>),
+    FF(CurveDF<FlatForwardInterpolator, NamedCal>),
+    FB(CurveDF<FlatBackwardInterpolator, NamedCal>),
+    N(CurveDF<NullInterpolator, NamedCal>),
+    Py(hk::PyCurve),
+}
+
+macro_rules! on_df {
+    ($c:expr, $v:ident => $body:expr, $py:ident => $pybody:expr) => {
+        match $c {
+            AnyCurve::LL($v) => $body,
+            AnyCurve::L($v) => $body,
+            AnyCurve::LZ($v) => $body,
+            AnyCurve::FF($v) => $body,
+            AnyCurve::FB($v) => $body,
+            AnyCurve::N($v) => $body,
+            AnyCurve::Py($py) => $pybody,
+        }
+    };
+}
+
+const RULES: [&str; 6] = ["log_linear", "linear", "linear_zero_rate", "flat_forward", "flat_backward", "null"];
+
+fn build_df(rule: i128, nodes: Nodes, id: &str, base: Option<f64>) -> AnyCurve {
+    let cal = NamedCal::try_new("all").unwrap();
+    let (cv, md) = (Convention::Act365F, Modifier::ModF);
+    match rule {
+        0 => AnyCurve::LL(CurveDF::try_new(nodes, LogLinearInterpolator::new(), id, cv, md, base, cal).unwrap()),
+        1 => AnyCurve::L(CurveDF::try_new(nodes, LinearInterpolator::new(), id, cv, md, base, cal).unwrap()),
+        2 => AnyCurve::LZ(CurveDF::try_new(nodes, LinearZeroRateInterpolator::new(), id, cv, md, base, cal).unwrap()),
+        3 => AnyCurve::FF(CurveDF::try_new(nodes, FlatForwardInterpolator::new(), id, cv, md, base, cal).unwrap()),
+        4 => AnyCurve::FB(CurveDF::try_new(nodes, FlatBackwardInterpolator::new(), id, cv, md, base, cal).unwrap()),
+        _ => AnyCurve::N(CurveDF::try_new(nodes, NullInterpolator::new(), id, cv, md, base, cal).unwrap()),
+    }
+}
+
+fn value_with_grads(v: &Number, names: &[String], out: &mut Ints) {
+    wnumber(v, out);
+    match v {
+        Number::F64(_) => {}
+        Number::Dual(d) => {
+            let g = d.gradient1(names.to_vec());
+            out.push(g.len() as i128);
+            for x in g.iter() {
+                wf(*x, out);
+            }
+        }
+        Number::Dual2(d) => {
+            let g = d.gradient1(names.to_vec());
+            out.push(g.len() as i128);
+            for x in g.iter() {
+                wf(*x, out);
+            }
+            let h = d.gradient2(names.to_vec());
+            let sh = h.shape().to_vec();
+            out.push(sh[0] as i128);
+            out.push(sh[1] as i128);
+            for x in h.iter() {
+                wf(*x, out);
+            }
+        }
+    }
+}
+
+fn run_curve(r: &mut Rd) -> Ints {
+    let path = r.next();
+    let rule = r.next();
+    let ad = r.next();
+    let id = read_name(r);
+    let hasbase = r.next();
+    let base_bits = r.next();
+    let base = if hasbase != 0 { Some(crate::i2f(base_bits)) } else { None };
+    let n = r.next() as usize;
+    let mut raw: Vec<(NaiveDateTime, Number)> = Vec::with_capacity(n);
+    for _ in 0..n {
+        let k = r.next();
+        let v = read_number(r);
+        raw.push((ndt_ns(k), v));
+    }
+    let mut out: Ints = vec![];
+    // construction
+    let built = crate::catch(|| -> Result<AnyCurve, ()> {
+        if path == 0 {
+            let nodes = match ad {
+                0 => Nodes::F64(IndexMap::from_iter(raw.iter().map(|(k, v)| (*k, f64::from(v))))),
+                1 => Nodes::Dual(IndexMap::from_iter(raw.iter().map(|(k, v)| {
+                    (*k, match v {
+                        Number::Dual(d) => d.clone(),
+                        _ => panic!("harness: kind mismatch"),
+                    })
+                }))),
+                _ => Nodes::Dual2(IndexMap::from_iter(raw.iter().map(|(k, v)| {
+                    (*k, match v {
+                        Number::Dual2(d) => d.clone(),
+                        _ => panic!("harness: kind mismatch"),
+                    })
+                }))),
+            };
+            Ok(build_df(rule, nodes, &id, base))
+        } else {
+            match hk::curve_new(raw.clone(), RULES[rule as usize], adorder(ad), &id, base) {
+                Ok(c) => Ok(AnyCurve::Py(c)),
+                Err(_) => Err(()),
+            }
+        }
+    });
+    let mut c = match built {
+        Some(Ok(c)) => {
+            out.push(0);
+            c
+        }
+        Some(Err(())) => return vec![1],
+        None => return vec![2],
+    };
+    let nact = r.next() as usize;
+    for _ in 0..nact {
+        let a = r.next();
+        match a {
+            0 => {
+                let x = r.next();
+                out.extend(guard(|| {
+                    let v = on_df!(&c, d => Ok(d.interpolated_value(&ndt_s(x))), p => hk::curve_value(p, ndt_s(x)))
+                        .map_err(|_: String| ())?;
+                    let mut o = vec![];
+                    wnumber(&v, &mut o);
+                    Ok(o)
+                }));
+            }
+            1 => {
+                let x = r.next();
+                out.extend(on_df!(&c, d => guard(|| Ok(vec![d.node_index(x as i64) as i128])), _p => vec![-1]));
+            }
+            2 => {
+                let o = r.next();
+                out.extend(guard(|| {
+                    on_df!(&mut c, d => d.set_ad_order(adorder(o)).map_err(|_| ()), p => hk::curve_set_ad_order(p, adorder(o)).map_err(|_| ()))?;
+                    Ok(vec![])
+                }));
+            }
+            3 => {
+                out.extend(guard(|| {
+                    let a = on_df!(&c, d => Ok(d.ad()), p => hk::curve_ad(p)).map_err(|_: String| ())?;
+                    Ok(vec![ad_int(a)])
+                }));
+            }
+            4 => {
+                out.extend(guard(|| {
+                    let nodes: Vec<(i128, Number)> = on_df!(&c,
+                        d => Ok(hk::curvedf_nodes(d).into_iter().map(|(k, v)| (k as i128 * 1_000_000_000, v)).collect()),
+                        p => hk::curve_nodes(p).map(|v| v.into_iter().map(|(k, v)| (ns_of(&k), v)).collect()))
+                    .map_err(|_: String| ())?;
+                    let mut o = vec![nodes.len() as i128];
+                    for (k, v) in nodes.iter() {
+                        o.push(*k);
+                        wnumber(v, &mut o);
+                    }
+                    Ok(o)
+                }));
+            }
+            5 => {
+                let x = r.next();
+                out.extend(guard(|| {
+                    let v = on_df!(&c, d => d.index_value(&ndt_s(x)).map_err(|e| e.to_string()), p => hk::curve_index_value(p, ndt_s(x)))
+                        .map_err(|_: String| ())?;
+                    let mut o = vec![];
+                    wnumber(&v, &mut o);
+                    Ok(o)
+                }));
+            }
+            6 => {
+                let x = r.next();
+                let names = read_names(r);
+                out.extend(guard(|| {
+                    let v = on_df!(&c, d => Ok(d.interpolated_value(&ndt_s(x))), p => hk::curve_value(p, ndt_s(x)))
+                        .map_err(|_: String| ())?;
+                    let mut o = vec![];
+                    value_with_grads(&v, &names, &mut o);
+                    Ok(o)
+                }));
+            }
+            _ => panic!("bad action"),
+        }
+    }
+    out
+}
+
+pub fn run(_op: &str, a: &Ints) -> Ints {
+    let mut r = Rd::new(a);
+    match r.next() {
+        0 => {
+            let lcf = r.next();
+            let lc = r.next();
+            let n = r.next() as usize;
+            let l: Vec<f64> = r.take(n).iter().map(|b| crate::i2f(*b)).collect();
+            let v = crate::i2f(r.next());
+            let lco = if lcf != 0 { Some(lc as usize) } else { None };
+            guard(|| Ok(vec![hk::index_left_f64(&l, v, lco) as i128]))
+        }
+        1 => {
+            let lcf = r.next();
+            let lc = r.next();
+            let n = r.next() as usize;
+            let l: Vec<i64> = r.take(n).iter().map(|b| *b as i64).collect();
+            let v = r.next() as i64;
+            let lco = if lcf != 0 { Some(lc as usize) } else { None };
+            guard(|| Ok(vec![hk::index_left_i64(&l, v, lco) as i128]))
+        }
+        2 => {
+            let n = r.next() as usize;
+            let l: Vec<f64> = r.take(n).iter().map(|b| crate::i2f(*b)).collect();
+            let q = r.next() as usize;
+            let mut out = vec![];
+            for _ in 0..q {
+                let v = crate::i2f(r.next());
+                match crate::catch(|| hk::index_left_f64(&l, v, None)) {
+                    Some(i) => out.push(i as i128),
+                    None => out.push(-2),
+                }
+            }
+            out
+        }
+        10 => run_curve(&mut r),
+        _ => vec![-1],
+    }
 }
